@@ -38,6 +38,9 @@ type c08Shape struct {
 	Decor  string  `json:"decor"`
 	Succ   []int   `json:"succ"`
 	First  []int   `json:"first"`
+	ILast  []int   `json:"ilast"`
+	RFirst int     `json:"rfirst"`
+	RT     bool    `json:"rt"`
 	Next   []int   `json:"next"`
 	Prev   []int   `json:"prev"`
 	Last   int     `json:"last"`
@@ -92,7 +95,7 @@ func (s c08Shape) key() string {
 	case "fun":
 		return fmt.Sprintf("%s n=%d succ=%v", s.Rel, s.N, s.Succ)
 	case "outline":
-		return fmt.Sprintf("outline n=%d first=%v next=%v prev=%v last=%d", s.N, s.First, s.Next, s.Prev, s.Last)
+		return fmt.Sprintf("outline n=%d titled-root=%v root.First=%d root.Last=%d First=%v Last=%v Next=%v Prev=%v (0 none, %d root)", s.N, s.RT, s.RFirst, s.Last, s.First, s.ILast, s.Next, s.Prev, s.N+1)
 	case "depth":
 		return fmt.Sprintf("%s depth=%d", s.Rel, s.Depth)
 	case "mut":
@@ -197,8 +200,9 @@ func (e *c08Env) input(s c08Shape) (data []byte, what string, ok bool) {
 			}
 			return v
 		}
-		return buildOutline(outlineShape{n: s.N, last: s.Last,
+		return buildOutline(outlineShape{n: s.N, last: tr(s.Last), rfirst: tr(s.RFirst), rt: s.RT,
 			first: func(i int) int { return tr(s.First[i-1]) },
+			ilast: func(i int) int { return tr(s.ILast[i-1]) },
 			next:  func(i int) int { return tr(s.Next[i-1]) },
 			prev:  func(i int) int { return tr(s.Prev[i-1]) }}), "", true
 	case "depth":
@@ -359,6 +363,64 @@ func pdfOps() []c08Op {
 	}
 }
 
+// coreOps are run on every shape in the quick tier; relOps adds the entry points that traverse the relation.
+var coreOps = map[string]bool{"read-relaxed": true, "read-strict": true, "validate-relaxed": true, "validate-strict": true, "optimize": true,
+	"info": true, "extract-pages": true, "trim": true, "stamp": true, "merge": true}
+
+var relOps = map[string][]string{
+	"pagetree":     {"rotate", "remove-pages", "insert-pages", "collect", "nup", "split", "boxes"},
+	"pageparent":   {"rotate", "insert-pages", "collect", "nup", "boxes"},
+	"refkids":      {"rotate", "remove-pages", "collect", "split"},
+	"fields":       {"form-list", "form-export-fill", "form-reset", "form-remove", "annotations", "sig-validate"},
+	"fieldparent":  {"form-list", "form-export-fill", "form-reset", "form-remove", "sig-validate"},
+	"structtree":   {"remove-pages", "collect", "properties"},
+	"nametree":     {"attachments", "bookmarks", "properties", "split"},
+	"numtree":      {"properties", "remove-pages", "collect"},
+	"xobjects":     {"extract-images", "list-images", "extract-fonts", "extract-content", "remove-stamp", "nup"},
+	"colorspace":   {"extract-images", "list-images", "extract-content", "nup"},
+	"function":     {"extract-images", "extract-content", "nup"},
+	"smask":        {"extract-images", "list-images", "nup"},
+	"irt":          {"annotations", "remove-pages", "rotate"},
+	"actionnext":   {"bookmarks", "bookmarks-export", "annotations", "properties"},
+	"beads":        {"remove-pages", "collect", "properties"},
+	"outline":      {"bookmarks", "bookmarks-export", "split", "properties"},
+	"outlinefirst": {"bookmarks", "bookmarks-export", "split"},
+	"outlinenext":  {"bookmarks", "bookmarks-export", "split"},
+	"xrefprev":     {"encrypt", "sig-validate"},
+	"xrefstmprev":  {"encrypt", "sig-validate"},
+	"xrefstm":      {"encrypt", "sig-validate"},
+	"extends":      {"encrypt", "properties"},
+	"length":       {"extract-content", "remove-stamp", "encrypt"},
+	"refchain":     {"extract-content", "extract-fonts", "extract-images", "nup"},
+	"refcontents":  {"extract-content", "remove-stamp", "nup"},
+	"refannots":    {"annotations", "form-list", "rotate"},
+	"array":        {"properties"},
+	"dict":         {"properties"},
+	"mixed":        {"properties"},
+	"parens":       {"properties", "extract-metadata"},
+	"contentarray": {"extract-content", "remove-stamp", "nup", "extract-fonts"},
+	"contentq":     {"extract-content", "remove-stamp", "nup"},
+	"contentdict":  {"extract-content", "remove-stamp", "extract-images", "nup"},
+}
+
+func selectOps(all []c08Op, s c08Shape) []c08Op {
+	rel := s.Rel
+	if s.Fam == "outline" {
+		rel = "outline"
+	}
+	want := map[string]bool{}
+	for _, n := range relOps[rel] {
+		want[n] = true
+	}
+	var out []c08Op
+	for _, o := range all {
+		if coreOps[o.name] || want[o.name] {
+			out = append(out, o)
+		}
+	}
+	return out
+}
+
 func mutOps(target string) []c08Op {
 	file := func(e *c08Env, name string, d []byte) string {
 		p := filepath.Join(e.dir, name)
@@ -457,6 +519,24 @@ func c08Child() {
 	debug.SetMaxStack(h.ArgInt("--maxstack-mb", 64) << 20)
 	debug.SetMemoryLimit(8 << 30)
 	pops := pdfOps()
+	opsMode := h.Arg("--ops")
+	baseCPU := time.Duration(h.ArgInt("--cpu-ms", 1500)) * time.Millisecond
+	perByte := time.Duration(h.ArgInt("--cpu-ns-per-byte", 20000)) * time.Nanosecond
+	// one-time initialisations (font metrics, tables) must not be charged to the first shape
+	for _, op := range pops {
+		func() {
+			defer func() { recover() }()
+			op.run(e.bases["classic"], e)
+		}()
+	}
+	wd := newWatchdog()
+	timeouts := map[int]int{} // case -> operations that ran out of CPU budget so far (from --timeouts on a restart)
+	if v := h.Arg("--timeouts"); v != "" {
+		var ci, n int
+		if _, err := fmt.Sscanf(v, "%d:%d", &ci, &n); err == nil {
+			timeouts[ci] = n
+		}
+	}
 	childLoop(len(cases), func(idx int, cio *childIO) {
 		c := cases[idx]
 		data, what, ok := e.input(c.Shape)
@@ -475,15 +555,31 @@ func c08Child() {
 		ops := pops
 		if c.Shape.Fam == "mut" {
 			ops = mutOps(c.Shape.Target)
+		} else if opsMode == "core" && (c.Shape.Fam == "graph" || c.Shape.Fam == "fun" || c.Shape.Fam == "outline" || c.Shape.Fam == "depth") {
+			ops = selectOps(pops, c.Shape)
 		}
 		for k, op := range ops {
 			if cio.skip(k + 1) {
 				continue
 			}
-			cio.begin(idx, k+1, fmt.Sprintf("%s:%d", op.name, len(data)))
 			r := c08OpRec{Idx: idx, Op: op.name}
+			if timeouts[idx] >= 2 {
+				// two operations already exceeded their budget on this input: the rest is not run (and not judged)
+				cio.begin(idx, k+1, fmt.Sprintf("%s:%d", op.name, len(data)))
+				r.Outcome = "notrun"
+				b, _ := json.Marshal(r)
+				cio.record(b)
+				continue
+			}
+			budget := baseCPU + time.Duration(len(data))*perByte
+			if timeouts[idx] == 1 {
+				budget /= 3
+			}
+			cio.begin(idx, k+1, fmt.Sprintf("%s:%d", op.name, len(data)))
 			t0 := time.Now()
+			wd.arm(budget)
 			func() {
+				defer wd.disarm()
 				defer func() {
 					if p := recover(); p != nil {
 						r.Outcome = "panic"
@@ -516,7 +612,7 @@ func c08Main() {
 	out := h.Arg("--out")
 	repo := h.Arg("--repo")
 	workers := h.ArgInt("--workers", 8)
-	baseMs := h.ArgInt("--base-ms", 30000)
+	baseMs := h.ArgInt("--base-ms", 60000)
 	var cases []c08Case
 	if err := h.EachLine(in, func(line []byte) error {
 		var c c08Case
@@ -531,16 +627,20 @@ func c08Main() {
 	var mu sync.Mutex
 	byCase := make([][]c08OpRec, len(cases))
 	dead := 0
+	cpuMs := h.ArgInt("--cpu-ms", 1500)
 	r := &runner{sub: "c08-child", n: len(cases), workers: workers,
-		args: []string{"--in", in, "--repo", repo, "--mutk", h.Arg("--mutk"), "--trunck", h.Arg("--trunck"), "--maxstack-mb", h.Arg("--maxstack-mb")},
-		env:  []string{"GOMAXPROCS=2"},
+		confirmArgs: []string{"--cpu-ms", fmt.Sprint(4 * cpuMs)},
+		args: []string{"--in", in, "--repo", repo, "--mutk", h.Arg("--mutk"), "--trunck", h.Arg("--trunck"), "--maxstack-mb", h.Arg("--maxstack-mb"),
+			"--cpu-ms", h.Arg("--cpu-ms"), "--cpu-ns-per-byte", h.Arg("--cpu-ns-per-byte"), "--ops", h.Arg("--ops")},
+		env: []string{"GOMAXPROCS=2"},
 		deadline: func(idx int, op string) time.Duration {
-			// wall clock bound proportional to the input size: base + 200 microseconds per byte
+			// The child enforces a CPU time budget proportional to the input size itself; this wall clock bound is the
+			// backstop for an operation that blocks without consuming CPU: base + 400 microseconds per byte.
 			size := 0
 			if i := strings.LastIndex(op, ":"); i >= 0 {
 				fmt.Sscanf(op[i+1:], "%d", &size)
 			}
-			return time.Duration(baseMs)*time.Millisecond + time.Duration(size)*200*time.Microsecond
+			return time.Duration(baseMs)*time.Millisecond + time.Duration(size)*400*time.Microsecond
 		},
 		onRecord: func(line []byte) {
 			var o c08OpRec
@@ -606,5 +706,5 @@ func c08Main() {
 		b, _ := json.Marshal(rec)
 		w.line(b)
 	}
-	h.Summary(map[string]any{"cases": len(cases), "records": w.n, "ops": nops, "dead": dead})
+	h.Summary(map[string]any{"cases": len(cases), "records": w.n, "ops": nops, "dead": dead, "timeouts_not_confirmed": r.unconfirmed})
 }
